@@ -215,7 +215,15 @@ def r3_nondeterminism(ctx):
                                  '' if ok else 'generated control number used outside the envelope trailers')
     fn = ctx.func('error_html', 'error_html.header')
     nd = [n for n in ast.walk(fn) if _is_nd(n)]
-    ok = len(nd) == 1 and 'Analysis Date' in ast.unparse(A.enclosing(nd[0], (ast.Expr,)))
+    ok = False
+    if len(nd) == 1:
+        st = A.enclosing(nd[0], (ast.stmt,))
+        if isinstance(st, ast.Expr):
+            ok = 'Analysis Date' in ast.unparse(st)
+        elif isinstance(st, ast.Assign) and len(st.targets) == 1 and isinstance(st.targets[0], ast.Name):
+            # kept in a local first: every use of that local is in the date line
+            uses = [x for x in ast.walk(fn) if isinstance(x, ast.Name) and x.id == st.targets[0].id and isinstance(x.ctx, ast.Load)]
+            ok = bool(uses) and all('Analysis Date' in ast.unparse(A.enclosing(u, (ast.stmt,))) for u in uses)
     yield Ob('error_html:error_html.header time only in the date line', ok, ctx.floc(fn), '' if ok else 'time used outside the date line')
 
 
